@@ -309,3 +309,23 @@ func Sendto(fd int, p []byte, flags int, to Sockaddr) error {
 }
 
 func Getpagesize() int { return 4096 }
+
+// Mmap of an anonymous region: a fresh zero-filled byte slice stands for the reserved address range.
+func Mmap(fd int, offset int64, length int, prot int, flags int) ([]byte, error) {
+	if length <= 0 {
+		return nil, EINVAL
+	}
+	if vkernel.K.Cfg.AllowAllocFail && vf.Bool("mmap.fail") {
+		return nil, syscall.ENOMEM
+	}
+	vkernel.K.Log.Mappings++
+	return make([]byte, length), nil
+}
+
+func Munmap(b []byte) error {
+	if vkernel.K.Log.Mappings > 0 {
+		vkernel.K.Log.Mappings--
+		return nil
+	}
+	return EINVAL
+}
